@@ -182,6 +182,30 @@ instance (f : Str → Str) (u v : Parts) : Decidable (UnderBy f u v) := by
 
 abbrev Under (u v : Parts) : Prop := UnderBy id u v
 
+/-- `path.split("/")[1:]`: the path segments as `lru_stems` emits them, empty ones included -/
+def rawSegs (path : Str) : List Str := (splitChar '/' path).tail
+
+/-- `UnderBy` for any reading `segs` of the path segments (`cleanSegs`: `UnderBy` itself) -/
+def UnderByG (segs : Str → List Str) (f : Str → Str) (u v : Parts) : Prop :=
+  u.scheme = v.scheme ∧ specPort u.netloc = specPort v.netloc ∧
+  (f (specHost u.netloc) = f (specHost v.netloc) ∨
+    (segs u.path = [] ∧ u.query = [] ∧ u.fragment = [] ∧
+      strictSub (f (specHost u.netloc)) (f (specHost v.netloc)) = true)) ∧
+  (segs u.path = segs v.path ∨
+    (u.query = [] ∧ u.fragment = [] ∧ segs u.path <+: segs v.path)) ∧
+  (u.query = v.query ∨ (u.query = [] ∧ u.fragment = [])) ∧
+  (u.fragment = v.fragment ∨ u.fragment = [])
+
+instance (segs : Str → List Str) (f : Str → Str) (u v : Parts) : Decidable (UnderByG segs f u v) := by
+  unfold UnderByG; infer_instance
+
+/-- **`v` lies under `u`, empty path segments NOT set aside**: as `Under`, but "`v`'s path extends
+`u`'s path by whole segments" is read on the segments as they are (`/a/` has the segments `a` and
+`""`; `/a/b` does not extend it, `/a//b` does).  Implies `Under` (`Props.C13.under_of_underRaw`).
+This is the hierarchy for which the RAW `lru_stems(u)` / `url_to_lru(u)` — empty path stems
+kept — is a prefix of that of `v`. -/
+abbrev UnderRaw (u v : Parts) : Prop := UnderByG rawSegs id u v
+
 /-- the stems of this host are its dot-separated labels: a DNS name (not bracketed, not an
 IPv4 literal / `localhost[:port]`), or a host without any dot -/
 def labelHost (h : Str) : Bool :=
